@@ -300,6 +300,28 @@ def run(ctx):
                  "(in release builds; debug builds panic on the overflow), the server reads garbage after it and closes the connection, and pgcat bans the replica for it" % (msgn, sorted(used)), first.where())
     r7.check(n_enc >= 3, "encoders", "%d message encoders reachable from the client path examined" % n_enc, "expected >= 3 reachable encoders, found %d" % n_enc)
 
+    # ---------------- R8 a silent client cannot keep a server for ever
+    r8 = ctx.rule("C11-R8", "while a client holds a server connection, waiting for its next message is bounded by idle_client_in_transaction_timeout as a whole: in the transaction loop of Client::handle every read of a client message "
+                  "is the future handed to tokio::time::timeout (a frame that is announced but never completed must not escape the deadline)", floor=2)
+    hh = ctx.body("pgcat::client::Client::handle::{closure#0}", r8)
+    if hh:
+        rmc = hh.calls("pgcat::messages::read_message")
+        claim_ = hh.calls("pgcat::server::Server::claim")
+        inner_reads = [c for c in rmc if claim_ and hh.dominates(claim_[0].block, c.block)]
+        tos = [c for c in hh.calls("re:^tokio::time::timeout::timeout$") if claim_ and hh.dominates(claim_[0].block, c.block)]
+        if not inner_reads or not tos:
+            r8.missing("read_message / tokio::time::timeout in the transaction loop of Client::handle")
+        else:
+            for k_, c in enumerate(inner_reads):
+                wrapped = any(any(o.kind == "call" and o.call.block == c.block for o in origins(hh, t.args[1])) for t in tos)
+                r8.check(wrapped, "client-read-under-deadline#%d" % (k_ + 1), "the read of the client's next message is the future given to timeout()",
+                         "a read of the client's next message in the transaction loop is not under the idle-in-transaction deadline: a client that sends a frame header announcing more bytes than it delivers and then goes silent "
+                         "keeps its server connection for ever; with the pool exhausted the others wait connect_timeout and are refused", c.where())
+            dur_ok = any(any(o.kind == "call" and o.call.name.endswith("get_idle_client_in_transaction_timeout") for o in origins(hh, t.args[0], taint=True)) for t in tos)
+            r8.check(dur_ok, "deadline-from-config", "the deadline is general.idle_client_in_transaction_timeout", "the deadline does not come from idle_client_in_transaction_timeout")
+            other_reads = [c for c in hh.calls("re:AsyncBufReadExt::fill_buf$|AsyncReadExt::read(_exact|_u8|_i32|_buf)?$") if claim_ and hh.dominates(claim_[0].block, c.block)]
+            r8.check(not other_reads, "no-raw-client-reads", "the transaction loop reads from the client only through read_message", "the transaction loop also reads the client socket with %s" % sorted({c.name.split("::")[-1] for c in other_reads}))
+
     # ---------------- inventory (informational)
     inv = ctx.rule("C11-INV", "inventory of panic-capable operations on data read from the client in the protocol entry functions (a panic here only ends the sender's task)", armed=False)
     tot = 0
